@@ -26,7 +26,7 @@ func ZvC07_S2_History() {
 	}
 	steps := vrt.Choice(vrt.Pick(4, 5)) + 1
 	for s := 0; s < steps; s++ {
-		switch vrt.Choice(5) {
+		switch vrt.Choice(7) {
 		case 0:
 			k, v := vrt.Int(), vrt.Int()
 			ek, ev, rem := c.Add(k, v)
@@ -70,6 +70,22 @@ func ZvC07_S2_History() {
 				vrt.Assert(vrt.And(ok, k == mk[0], v == mv[0]), "C07/S2/RemoveYoungest")
 				del(0)
 			}
+		case 5:
+			k, v, ok := c.GetOldest()
+			if len(mk) == 0 {
+				vrt.Assert(!ok, "C07/S2/GetOldest-empty")
+			} else {
+				n := len(mk)
+				vrt.Assert(vrt.And(ok, k == mk[n-1], v == mv[n-1]), "C07/S2/GetOldest")
+				// GetOldest refreshes recency
+				kk, vv := mk[n-1], mv[n-1]
+				del(n - 1)
+				mk = append([]int{kk}, mk...)
+				mv = append([]int{vv}, mv...)
+			}
+		case 6:
+			c.Flush()
+			mk, mv = nil, nil
 		case 4:
 			k := vrt.Int()
 			v, ok := c.Remove(k)
